@@ -91,7 +91,7 @@ def expand_macros(text, file_text, names, log):
 class FnSpec:
     def __init__(self, file, name, impl=None, nth=0, out_name=None, sig=None, sig_anchor=None, rules=(), requires=None, ensures=None,
                  loops=None, pre_body="", props=(), macros=(), block_anchor=None, attrs="", kind="property", model="S", returns=None,
-                 keep_panics=False, decreases=None, mode="exec", tail="", block_nth=0, loops_optional=False):
+                 keep_panics=False, decreases=None, mode="exec", tail="", block_nth=0, loops_optional=False, hints=()):
         self.file, self.name, self.impl, self.nth = file, name, impl, nth
         self.out_name = out_name or name
         self.sig, self.sig_anchor = sig, sig_anchor
@@ -103,6 +103,7 @@ class FnSpec:
         self.macros = list(macros)
         self.block_nth = block_nth
         self.loops_optional = loops_optional
+        self.hints = list(hints)           # [(anchor regex, proof text)]: ghost-only proof hints inserted AFTER the matched text (skipped if the anchor is gone)
         self.block_anchor = block_anchor      # regex inside the fn: extract the balanced {..} block that follows it instead of the whole body
         self.attrs = attrs
         self.kind = kind                      # property | mechanism | helper
@@ -168,6 +169,10 @@ class FnSpec:
                 sig = re.sub(r.pattern, r.repl, sig, flags=r.flags)
             if self.out_name != self.name:
                 sig = re.sub(r"\bfn\s+" + re.escape(self.name) + r"\b", "fn " + self.out_name, sig)
+        for anchor, text_ in self.hints:
+            body, n_h = re.subn(anchor, lambda m_, t_=text_: m_.group(0) + " " + t_, body, count=1, flags=re.S)
+            if n_h:
+                flog["ghost-hint"] = flog.get("ghost-hint", 0) + 1
         # loops
         if self.loops:
             body = insert_loop_specs(body, self.loops, where, self.loops_optional)
